@@ -1,6 +1,9 @@
 /-
   C03 — Tag iteration reproduces the specification's tag walk, zero-copy.
 -/
+import Mb2.Props.FnsIter
+import Mb2.Props.FnsAlign
+import Mb2.Props.FnsTagHdr
 import Mb2.Spec
 import Mb2.Lemmas.Arith
 import Mb2.Lemmas.Common
